@@ -200,26 +200,21 @@ def _parse_out(r):
 
 
 def _iter_prints(out):
-    """Yield parsed values of PrintT output that starts with '<<"' at line start.
-
-    Multi-worker runs may interleave lines; values are delimited by bracket matching.
+    """Yield parsed values of PrintT output: a tuple whose first element is a string, starting
+    at the beginning of a line.  TLC pretty-prints long values over several lines as
+    `<< "V",\n   ...>>` (with a space after `<<`), short ones as `<<"V", ...>>`: both are
+    accepted.  Multi-worker runs may interleave lines; values are delimited by bracket matching.
     """
-    i = 0
-    n = len(out)
-    while True:
-        j = out.find('<<"', i)
-        if j < 0:
-            return
-        if j > 0 and out[j - 1] not in "\n":
-            i = j + 3
-            continue
+    for m in _PRINT_START.finditer(out):
+        j = m.start()
         try:
             v, end = tlaval.parse_prefix(out, j)
         except tlaval.ParseError:
-            i = j + 3
             continue
         yield v
-        i = end
+
+
+_PRINT_START = re.compile(r'^<<\s*"', re.M)
 
 
 def require_ok(r, what=""):
